@@ -88,7 +88,7 @@ static void make_conns(std::vector<Conn>& cs, long mode, vh::Rng& rng) {
     std::string A = v6 ? "2001:db8::1" : "10.0.0.1", B = v6 ? "2001:db8::2" : "10.0.0.2", C = v6 ? "2001:db8::3" : "10.0.0.3";
     uint16_t p1 = 5000, p2 = 6000;
     a.e[0] = End{v6, A, p1}; a.e[1] = End{v6, B, p2};
-    switch (mode % 8) {
+    switch (mode % 10) {
     case 0: b.e[0] = End{v6, C, p1}; b.e[1] = End{v6, B, p2}; break;                // another client host, same ports
     case 1: b.e[0] = End{v6, A, p2}; b.e[1] = End{v6, B, p1}; break;                // same hosts, crossed ports
     case 2: b.e[0] = End{v6, B, p1}; b.e[1] = End{v6, A, p2}; break;                // swapped hosts, same ports
@@ -100,6 +100,10 @@ static void make_conns(std::vector<Conn>& cs, long mode, vh::Rng& rng) {
             b.e[0] = End{v6, C, p2}; b.e[1] = End{v6, A, p2}; break;                    // addresses tell the directions apart)
     case 7: a.e[0] = End{v6, A, p1}; a.e[1] = End{v6, B, p1};                           // ... and the second connection on the same port pair,
             b.e[0] = End{v6, A, p1}; b.e[1] = End{v6, C, p1}; break;                    // sharing the client with the first
+    case 8: a.e[0] = End{v6, A, p1}; a.e[1] = End{v6, A, p2};                           // both ends of a connection on the SAME address (a host
+            b.e[0] = End{v6, A, p2}; b.e[1] = End{v6, B, p1}; break;                    // talking to itself: only the ports tell the directions apart)
+    case 9: a.e[0] = End{v6, A, p1}; a.e[1] = End{v6, A, p2};                           // ... and the second connection on the same host with
+            b.e[0] = End{v6, A, p1}; b.e[1] = End{v6, A, (uint16_t)(p2 + 1)}; break;    // one port in common
     }
     cs.push_back(a); cs.push_back(b);
 }
@@ -109,13 +113,13 @@ static uint32_t pick_isn(vh::Rng& rng) {
 
 static void scenario(const vh::Json& sc, vh::Out& out, vh::Rng& rng, const vh::Args& args) {
     Ctx ctx; G = &ctx; ctx.snap = false;
-    long mode = sc.has("mode") ? sc["mode"].num() : (long)rng.below(8);
+    long mode = sc.has("mode") ? sc["mode"].num() : (long)rng.below(10);
     make_conns(ctx.conns, mode, rng);
     for (size_t i = 0; i < ctx.conns.size(); ++i) { ctx.conns[i].isn[0] = pick_isn(rng); ctx.conns[i].isn[1] = pick_isn(rng); }
     bool attach = sc["attach"].truth();
     const std::string ign = sc.has("ignore") ? sc["ignore"].str() : "none"; ctx.ignore = ign == "client" ? 1 : ign == "server" ? 2 : 0;
     long KA = 10, maxChunks = 2, maxBytes = 6;
-    out.begin("\"attach\":" + std::string(attach ? "true" : "false") + ",\"ignore\":\"" + ign + "\",\"keepAlive\":10,\"maxChunks\":2,\"maxBytes\":6,\"mode\":" + std::to_string(mode % 8));
+    out.begin("\"attach\":" + std::string(attach ? "true" : "false") + ",\"ignore\":\"" + ign + "\",\"keepAlive\":10,\"maxChunks\":2,\"maxBytes\":6,\"mode\":" + std::to_string(mode % 10));
     StreamFollower fol;
     fol.new_stream_callback(&on_new);
     fol.stream_termination_callback(&on_term);
